@@ -293,7 +293,7 @@ func checkC09(c *Ctx, w *World) {
 		slotOK := isLk && isLoadOf(lk.X, "gcpBalancer.scRefs") && lk.Index == ssa.Value(sc)
 		ncs := newCondSpace(pl.uscs, recOf(eqAtom("slotNil", isVal(base), isNil)), "slotNil")
 		// every path from the record to a return passes the lookup, and the close happens unless the slot is nil
-		passes := isLk && everyPathHits(record, map[ssa.Instruction]bool{lk: true})
+		passes := isLk && (everyPathHits(record, map[ssa.Instruction]bool{lk: true}) || everyWayHits(ncs, record, lk))
 		avoid := map[*ssa.BasicBlock]bool{closeCall.Block(): true}
 		acs := newCondSpaceAvoid(pl.uscs, recOf(eqAtom("slotNil", isVal(base), isNil)), avoid, "slotNil")
 		skipOnlyNil := true
